@@ -304,9 +304,11 @@ example : (compound .add (.host { name := 0, impl := [(.addAssign, .ret .null)] 
 /-! ## comparisons -/
 
 /-- the operator's own entry: called with (self := lhs, arg := rhs), its value is the result
-(whatever its type) — for every right operand, `null` included -/
+(whatever its type) — for every right operand except `null` under `==` / `!=`
+(see `cmp_null_no_dispatch`): the `_partial` statement of "own key first" for comparisons -/
 theorem cmp_own_key (op : CmpOp) (m : MapD) (rhs : Opd) (tag : Name) (b : Beh)
-    (h : m.metaGet op.key = some (tag, .fn b)) :
+    (h : m.metaGet op.key = some (tag, .fn b))
+    (hn : rhs ≠ .prim .null) :
     compareOp op (.map m) rhs = ⟨[⟨tag, .mk op.key, m.av, [rhs.av]⟩], (b.run m.av).pass⟩ := by
   cases op
   case eq =>
@@ -327,24 +329,26 @@ theorem cmp_own_key (op : CmpOp) (m : MapD) (rhs : Opd) (tag : Name) (b : Beh)
     unfold compareOp order
     simp [h, invoke_fn, Opd.av]
 
-/-- `null` on the right is an operand like any other: an object's `@==` / `@!=` is called with
-(self := obj, arg := null) (see `cmp_own_key`, which has no exception for `null`); only when the left
-operand has no overload is `x == null` simply `false` and `x != null` `true`, without any call.
-(Documented behaviour; the implementation tests `(_, Null)` first — finding F-C17-9.) -/
-theorem cmp_null_spec (lhs : Opd)
-    (hl : match lhs with
-      | .prim k => k ≠ .null
-      | .map m => m.metaGet .Equal = none ∧ m.metaGet .NotEqual = none
-      | .host _ => False) :
+/-- `obj == null` is `false`, `obj != null` is `true`, without calling `@==` / `@!=` / `equal` —
+as implemented (the `(_, Null)` arm precedes the overloads; upstream pins this for host objects in
+object_tests.rs `equal_null_lhs` / `not_equal_null_lhs`) -/
+theorem cmp_null_no_dispatch (lhs : Opd) (hl : lhs ≠ .prim .null) :
     compareOp .eq lhs (.prim .null) = ⟨[], .ok (.bool false)⟩ ∧
     compareOp .ne lhs (.prim .null) = ⟨[], .ok (.bool true)⟩ := by
   cases lhs with
   | prim k => cases k <;> simp_all [compareOp, equality]
-  | map m => simp only at hl; simp [compareOp, equality, hl.1, hl.2]
-  | host h => exact absurd hl id
+  | map m => simp [compareOp, equality]
+  | host h => simp [compareOp, equality]
 
-example : compareOp .eq (.map { top := { name := 0, src := .own { tag := 0, ops := [(.Equal, .fn (.ret (.bool true)))] } } })
-    (.prim .null) = ⟨[⟨0, .mk .Equal, .obj 0, [.prim .null]⟩], .ok (.bool true)⟩ := by decide
+/-- … which is against the letter of the property ("every comparison invokes the metakey function",
+for all operand kinds): negation witness for `null` — an object whose `@==` always answers `true` is
+nevertheless unequal to `null`, and `@==` is not called (finding F-C17-9) -/
+theorem cmp_null_skips_overload_witness :
+    ∃ (m : MapD) (tag : Name), m.metaGet .Equal = some (tag, .fn (.ret (.bool true))) ∧
+      compareOp .eq (.map m) (.prim .null) = ⟨[], .ok (.bool false)⟩ ∧
+      compareOp .eq (.map m) (.prim .num) = ⟨[⟨tag, .mk .Equal, m.av, [.prim .num]⟩], .ok (.bool true)⟩ :=
+  ⟨{ top := { name := 0, src := .own { tag := 0, ops := [(.Equal, .fn (.ret (.bool true)))] } } }, 0,
+    by decide, by decide, by decide⟩
 
 /-- Derivation of the missing comparisons, exactly as dispatched: with `@<` returning `lt` and `@==`
 returning `eq` (and no own entry for the operator):
@@ -352,7 +356,8 @@ returning `eq` (and no own entry for the operator):
 `@==` is consulted only when `@<` said `false`. -/
 theorem derived_cmp (m : MapD) (rhs : Opd) (tl te : Name) (lt eq : Bool)
     (hl : m.metaGet .Less = some (tl, .fn (.ret (.bool lt))))
-    (he : m.metaGet .Equal = some (te, .fn (.ret (.bool eq)))) :
+    (he : m.metaGet .Equal = some (te, .fn (.ret (.bool eq))))
+    (hn : rhs ≠ .prim .null) :
     let evL : Ev := ⟨tl, .mk .Less, m.av, [rhs.av]⟩
     let evE : Ev := ⟨te, .mk .Equal, m.av, [rhs.av]⟩
     (m.metaGet .LessOrEqual = none →
@@ -917,7 +922,7 @@ the right-hand side of an arithmetic operator -/
 theorem object_unimplemented_is_error (h : HostD) (hn : h.impl = []) :
     (∀ op (k : PrimK), ∃ e, arith op (.host h) (.prim k) = ⟨[], .err e⟩) ∧
     (∀ op (rhs : Opd) same, (∀ h2, rhs ≠ .host h2) → compound op (.host h) rhs same = ⟨[], .err .hostUnimpl⟩) ∧
-    (∀ op (rhs : Opd), compareOp op (.host h) rhs = ⟨[], .err .hostUnimpl⟩) ∧
+    (∀ op (rhs : Opd), rhs ≠ .prim .null → compareOp op (.host h) rhs = ⟨[], .err .hostUnimpl⟩) ∧
     negate (.host h) = ⟨[], .err .hostUnimpl⟩ ∧
     (∀ i, index (.host h) i = ⟨[], .err .hostUnimpl⟩) ∧
     (∀ i, indexAssign (.host h) i = ⟨[], .err .hostUnimpl⟩) ∧
@@ -934,7 +939,7 @@ theorem object_unimplemented_is_error (h : HostD) (hn : h.impl = []) :
     | host h2 => exact absurd rfl (hr h2)
     | prim k => simp [compound, HostD.call, hn, HostRes.pass]
     | map m => simp [compound, HostD.call, hn, HostRes.pass]
-  · intro op rhs
+  · intro op rhs hr
     cases op <;> cases rhs with
     | prim k =>
       cases k <;>
@@ -1106,12 +1111,12 @@ whenever the operator's entry is a function it is called exactly once with (self
 theorem operand_order_other (m : MapD) (rhs : Opd) (tag : Name) (b : Beh) :
     (∀ op same, m.metaGet op.akey = some (tag, .fn b) →
       (compound op (.map m) rhs same).trace = [⟨tag, .mk op.akey, m.av, [rhs.av]⟩]) ∧
-    (∀ op, m.metaGet (CmpOp.key op) = some (tag, .fn b) →
+    (∀ op, rhs ≠ .prim .null → m.metaGet (CmpOp.key op) = some (tag, .fn b) →
       (compareOp op (.map m) rhs).trace = [⟨tag, .mk op.key, m.av, [rhs.av]⟩]) ∧
     (m.metaGet .Negate = some (tag, .fn b) → (negate (.map m)).trace = [⟨tag, .mk .Negate, m.av, []⟩]) := by
   refine ⟨?_, ?_, ?_⟩
   · intro op same h; rw [compound_own_key op m rhs same tag b h]
-  · intro op h; rw [cmp_own_key op m rhs tag b h]
+  · intro op hn h; rw [cmp_own_key op m rhs tag b h hn]
   · intro h; rw [(unary_own_key m tag b).1 h]
 
 example : Ordered .sub (.prim .num) (.map { top := { name := 1 } }) ⟨1, .mk .SubtractRhs, .obj 1, [.prim .num]⟩ :=
